@@ -5,6 +5,7 @@ import math
 from fractions import Fraction
 
 from core import fseq, fseqs, fbool, fcells, pseq, pseqs, pcells, guarded
+import used
 
 PROP = "C09"
 RULE = ("exhaustive: every rank 0..sum_{n<=N} n! (unrank, rank(unrank)), every permutation of length <= N (rank, "
@@ -109,8 +110,105 @@ def encode(kind, seq):
     raise ValueError(kind)
 
 
-# ------------------------------------------------------------------ implementation
+# ------------------------------------------------------------------ used objects / call histories
+def _P(tok):  # noqa: E302
+    """the permutation object of a line: built once per line and used before the call under test (hashed,
+    compared, searched with, ranked, printed)"""
+    def warm(p):
+        used.warm_perm(p, 1)
+        if used.is_perm(p):
+            used.quiet(p.rank)
+            used.quiet(str, p)
+            used.quiet(repr, p)
+            used.quiet(lambda: p < Perm.identity(len(p)))
+    return used.obj(("P", tok), lambda: Perm(pseq(tok)), warm if _HEAVY[0] else None)
+
+
+def _M(ptok, ctok):
+    def warm(m):
+        used.warm_mesh(m, 1)
+        used.quiet(m.rank)
+        used.quiet(repr, m)
+    return used.obj(("M", ptok, ctok), lambda: MeshPatt(Perm(pseq(ptok)), pcells(ctok)), warm if _HEAVY[0] else None)
+
+
+def _neighbours(op, a):
+    """the generators / class-level functions under test are first used with a DIFFERENT nearby argument, and one
+    iterator of the kind under test is created, advanced by one item and abandoned"""
+    q = used.quiet
+    if op in ("oflen", "upto", "first", "ident"):
+        n = int(a[0])
+        f = {"oflen": Perm.of_length, "upto": Perm.up_to_length, "first": Perm.first, "ident": Perm.identity}[op]
+        if op != "ident":
+            used.sip(lambda: f(n))
+            used.sip(lambda: f(n + 1), 2)
+            used.sip(lambda: f(max(n - 1, 0)), 3)
+            used.sip(lambda: Perm.first(n + 2), n + 2 if n < 30 else 1)
+        else:
+            q(lambda: f(n + 1))
+    elif op in ("unrank", "rankunrank"):
+        k = int(a[0])
+        n = pint(a[1]) if op == "unrank" else None
+        if n is None:
+            q(lambda: Perm.unrank(k + 1))
+            q(lambda: Perm.unrank(max(k - 1, 0)))
+            q(lambda: Perm.unrank(k + 7))
+        elif 0 <= n <= 12:
+            q(lambda: Perm.unrank(k + 1, n))
+            q(lambda: Perm.unrank(k, n + 1))
+            q(lambda: Perm.unrank(0, n))
+    elif op == "std":
+        s = pseq(a[1])
+        q(lambda: Perm.to_standard(encode(a[0], s[::-1])))
+        q(lambda: Perm.to_standard(encode("int", s)))
+        q(lambda: Perm.to_standard(encode(a[0], s[:-1])))
+    elif op in ("fromint", "intrt0", "intrt1"):
+        q(lambda: Perm.from_integer(21))
+        q(lambda: Perm.from_integer(102))
+    elif op in ("fromstr", "strrt", "validatedstr"):
+        q(lambda: Perm.from_string("10"))
+        q(lambda: Perm.from_iterable_validated("021"))
+    elif op in ("munrank", "mrankunrank"):
+        p = _P(a[0])
+        q(lambda: MeshPatt.unrank(p, int(a[1]) + 1))
+        q(lambda: MeshPatt.unrank(p, 0))
+        q(lambda: MeshPatt.unrank(p.reverse(), int(a[1])))
+    elif op in ("moflen", "moflenset"):
+        n = int(a[0])
+        if 0 <= n <= 3:
+            used.sip(lambda: MeshPatt.of_length(n))
+            if len(a) > 1 and a[1] != "N":
+                p = _P(a[1])
+                used.sip(lambda: MeshPatt.of_length(n, p), 2)
+                used.sip(lambda: MeshPatt.of_length(n, p.reverse()), 3)
+            used.sip(lambda: MeshPatt.of_length(n + 1), 2)
+
+
+_ONCE = ("stdhist", "validok", "moflenset")
+_GEN = ("oflen", "upto", "first", "moflen", "moflenset")
+_HEAVY = [False]
+
+
 def impl(op, a):
+    used.begin()
+    # every generator line and a deterministic third of the other lines get the used-object treatment
+    _HEAVY[0] = op in _GEN or used.sel(op, a, 3)
+    if not _HEAVY[0]:
+        return _impl(op, a)
+    try:
+        _neighbours(op, a)
+    except Exception:  # pylint: disable=broad-except
+        pass
+    r1 = _impl(op, a)
+    if op in _ONCE or (op in ("oflen", "upto") and a[0].lstrip("-").isdigit() and int(a[0]) >= 7):
+        return r1
+    used.T.rewind()
+    r2 = _impl(op, a)       # once more, on the same (now used) objects
+    return r1 if r1 == r2 else used.unstable(r1, r2)
+
+
+# ------------------------------------------------------------------ implementation
+def _impl(op, a):
     if op == "oflen":
         return guarded(lambda: fseqs(Perm.of_length(int(a[0]))))
     if op == "upto":
@@ -121,13 +219,13 @@ def impl(op, a):
         k, n = int(a[0]), pint(a[1])
         return guarded(lambda: fseq(Perm.unrank(k) if n is None else Perm.unrank(k, n)))
     if op == "rank":
-        return guarded(lambda: str(Perm(pseq(a[0])).rank()))
+        return guarded(lambda: str(_P(a[0]).rank()))
     if op == "rankunrank":
         return guarded(lambda: str(Perm.unrank(int(a[0])).rank()))
     if op == "unrankrank":
-        return guarded(lambda: fseq(Perm.unrank(Perm(pseq(a[0])).rank())))
+        return guarded(lambda: fseq(Perm.unrank(_P(a[0]).rank())))
     if op == "lt":
-        return guarded(lambda: fbool(Perm(pseq(a[0])) < Perm(pseq(a[1]))))
+        return guarded(lambda: fbool(_P(a[0]) < _P(a[1])))
     if op == "ident":
         return guarded(lambda: fseq(Perm.identity(int(a[0]))))
     if op == "std":
@@ -161,13 +259,13 @@ def impl(op, a):
     if op == "validatedstr":
         return guarded(lambda: fseq(Perm.from_iterable_validated(pstr(a[0]))))
     if op == "str":
-        return guarded(lambda: str(Perm(pseq(a[0]))))
+        return guarded(lambda: str(_P(a[0])))
     if op == "repr":
-        return guarded(lambda: repr(Perm(pseq(a[0]))))
+        return guarded(lambda: repr(_P(a[0])))
     if op == "strrt":
-        return guarded(lambda: fseq(Perm.from_string(str(Perm(pseq(a[0]))))))
+        return guarded(lambda: fseq(Perm.from_string(str(_P(a[0])))))
     if op == "reprrt":
-        return guarded(lambda: fseq(eval(repr(Perm(pseq(a[0]))), {"Perm": Perm})))
+        return guarded(lambda: fseq(eval(repr(_P(a[0])), {"Perm": Perm})))
     if op == "intrt0":
         return guarded(lambda: fseq(Perm.from_integer(int("".join(str(v) for v in pseq(a[0]))))))
     if op == "intrt1":
@@ -175,16 +273,16 @@ def impl(op, a):
     if op == "onert":
         return guarded(lambda: fints(Perm.one_based(v + 1 for v in pseq(a[0]))))
     if op == "munrank":
-        return guarded(lambda: fmesh(MeshPatt.unrank(Perm(pseq(a[0])), int(a[1]))))
+        return guarded(lambda: fmesh(MeshPatt.unrank(_P(a[0]), int(a[1]))))
     if op == "mrank":
-        return guarded(lambda: str(MeshPatt(Perm(pseq(a[0])), pcells(a[1])).rank()))
+        return guarded(lambda: str(_M(a[0], a[1]).rank()))
     if op == "mrankunrank":
-        return guarded(lambda: str(MeshPatt.unrank(Perm(pseq(a[0])), int(a[1])).rank()))
+        return guarded(lambda: str(MeshPatt.unrank(_P(a[0]), int(a[1])).rank()))
     if op == "munrankrank":
-        return guarded(lambda: fmesh(MeshPatt.unrank(Perm(pseq(a[0])), MeshPatt(Perm(pseq(a[0])), pcells(a[1])).rank())))
+        return guarded(lambda: fmesh(MeshPatt.unrank(_P(a[0]), _M(a[0], a[1]).rank())))
     if op == "moflen":
         n = int(a[0])
-        return guarded(lambda: fmeshes(MeshPatt.of_length(n) if a[1] == "N" else MeshPatt.of_length(n, Perm(pseq(a[1])))))
+        return guarded(lambda: fmeshes(MeshPatt.of_length(n) if a[1] == "N" else MeshPatt.of_length(n, _P(a[1]))))
     if op == "moflenset":
         n = int(a[0])
         return guarded(lambda: ";".join(sorted(fmesh(m) for m in MeshPatt.of_length(n))))
